@@ -92,6 +92,10 @@ func nativeRedirects(dir string, overlay map[string][]byte, redirects map[string
 								if wantPtr && !havePtr {
 									recv = &ast.UnaryExpr{Op: token.AND, X: recv}
 								}
+								// value-receiver method called through a pointer: pass the value
+								if !wantPtr && havePtr {
+									recv = &ast.StarExpr{X: recv}
+								}
 							}
 							fun.X = recv
 							call.Args = append([]ast.Expr{fun.X}, call.Args...)
